@@ -251,6 +251,24 @@ func defStrList(name string, vs []string) {
 	out.WriteString("].\n")
 }
 
+func defStrListList(name string, vss [][]string) {
+	fmt.Fprintf(&out, "Definition %s : list (list string) := [", name)
+	for i, vs := range vss {
+		if i > 0 {
+			out.WriteString(";")
+		}
+		out.WriteString("\n  [")
+		for j, v := range vs {
+			if j > 0 {
+				out.WriteString("; ")
+			}
+			out.WriteString(coqStr(v))
+		}
+		out.WriteString("]")
+	}
+	out.WriteString("].\n")
+}
+
 func sortedCopy(a []string) []string {
 	b := append([]string(nil), a...)
 	sort.Strings(b)
